@@ -13,6 +13,8 @@ Not decided: rounding-level differences between scales; the CylinderSegment log-
 """
 from __future__ import annotations
 
+import ast
+
 import dim_rules
 from common import AnalysisError, Finding, norm
 
@@ -76,6 +78,24 @@ def run(repo, res, tier):
     for r in geom:
         res.ob(f"(b,c):geometry:{r['entry']}", not r["error"], {"entry": r["entry"], "typed_expressions": r["nexpr"], "findings": len(r["findings"])})
     # (b),(c): one obligation per typed comparison site is too fine to list; count typed expressions instead
+    # (e) no decimal rounding of dimensional data outside the display code (np.round(x, k) quantises in absolute units)
+    n_round = 0
+    for m, qn, fn, cl in repo.all_functions():
+        if any(t in m.name for t in (".display", ".style", ".defaults")):
+            continue
+        for c in ast.walk(fn):
+            if isinstance(c, ast.Call) and (getattr(c.func, "attr", "") in ("round", "around", "round_") or getattr(c.func, "id", "") == "round"):
+                dec = c.args[1] if len(c.args) > 1 and getattr(c.func, "attr", "") != "" and isinstance(c.func.value, ast.Name) and c.func.value.id == "np" else \
+                    (c.args[0] if c.args and getattr(c.func, "attr", "") and not (isinstance(c.func.value, ast.Name) and c.func.value.id == "np") else
+                     (c.args[1] if len(c.args) > 1 else None))
+                dec = next((k.value for k in c.keywords if k.arg == "decimals"), dec)
+                n_round += 1
+                ok = dec is None or (isinstance(dec, ast.Constant) and dec.value in (0, None))
+                res.ob(f"(e):{qn}:{norm(c)}", ok, {"rule": "(e)", "function": qn, "rounding": norm(c)})
+                if not ok:
+                    res.add(Finding("abs-quantisation", m.rel, qn, c, "rounding to a fixed number of decimals quantises lengths/fields in absolute units: "
+                                    "results change with the choice of unit", c.lineno))
+    res.analysed["rounding_calls_outside_display"] = n_round
     res.analysed.update({"field_function_runs": len(results), "geometry_helper_runs": len(geom), "dim_findings_distinct": n_find})
     res.assumptions = sorted(set(res.assumptions))
     res.assumptions += ["declared parameter dimensions (dim_rules.PARAM_DIM) are the specification",
